@@ -55,7 +55,7 @@ def scenarios(tier, rnd, varcfgs, classes):
     full = sorted([v for v in varcfgs if not v["unsupported"] and v["cfg"] != VC], key=lambda v: json.dumps(v, sort_keys=True))
     rnd.shuffle(partial)
     rnd.shuffle(full)
-    pick = [(partial[0], 3)] + ([(v, 2 + i % 2) for i, v in enumerate(full[:7] + partial[1:4])] if thorough else [])
+    pick = [(partial[0], 3)] + ([(v, 2 + i % 2) for i, v in enumerate(full[:12] + partial[1:6])] if thorough else [])
     for i, (v, d) in enumerate(pick):
         c = v["cfg"]
         sup = [db for db in range(c["mindb"], c["maxdb"] + 1) if db not in v["unsupported"]]
@@ -154,7 +154,8 @@ def judge(byid, res, cats, varcat, report, selftest=False):
             report("drift", "native-accepts/%s" % x["class"], "the model expects the native verifier to reject class %s (C09's statement)" % x["class"], payload)
         if exp["expect"] == "accept" and not x["native"]:
             report("drift", "native-rejects/%s" % x["class"], "the model expects acceptance: %s" % x["native_detail"], payload)
-        if not x["native"] and exp["first"] and x["changed"] and strong:
+        pow_dependent = "Pow" in {c06.kind_of_id(i) for i in exp["first"]} and s["cfg"]["pow"] < 16   # a 2^-10 event is not drift
+        if not x["native"] and exp["first"] and x["changed"] and strong and not pow_dependent:
             k = c06.kind_of_detail(x["native_detail"])
             if k not in {c06.kind_of_id(i) for i in exp["first"]}:
                 st["first_mismatch"].setdefault(x["class"], k)
